@@ -12,8 +12,16 @@ import subprocess
 from vlib import COQ, GOENV, REPO, build_govalid, check_properties_file, coq_make, go_build, known_findings, run, scratch
 
 TRUSTED = [
-    "cel-go v0.26.1 as the reference evaluator (value bound to the field, this to a map of the struct's fields)",
-    "the Go compiler as the judge of 'fails loudly'; lib/celgen.py (typed expression grammar and value grids); genharness celdriver",
+    "Coq 8.16.1 kernel; vm_compute / vm_cast_no_check in the per-run certificates and model comparisons; no native_compute",
+    "axioms (Print Assumptions, verbatim in this file): the stdlib Reals axioms and functional extensionality reached through Flocq's binary64 operations "
+    "(ClassicalDedekindReals.sig_not_dec, sig_forall_dec, FunctionalExtensionality.functional_extensionality_dep, Classical_Prop.classic); none declared here",
+    "hypotheses of C10_translation_sound about Go's standard library, which cel-go AND the generated code both call: a pattern accepted by regexp.Compile "
+    "matches without failing; time.ParseDuration returns an int64; regexp matching, strconv float parsing/printing and time.ParseDuration are shared oracles",
+    "hand-written Gallina models: Cel/CelSem.v (reference semantics of cel-go v0.26.1's interpreter; compared with cel-go on every binding of every run), "
+    "Cel/GoSem.v (semantics of the emitted Go expressions; compared with the compiled validators), Cel/Translate.v (convertASTToGo; compared node for node "
+    "with go/parser's tree of every emitted condition by kernel-checked certificates)",
+    "translators of the harness: internal/celx (cel-go AST -> cexpr; Go condition -> gexpr via go/parser), cmd/genharness celcoq (struct bindings -> fval)",
+    "cel-go's parser and checker as the front end shared by the generator and the reference; the Go compiler as the judge of 'fails loudly'; lib/celgen.py (grammar, grids)",
 ]
 
 
@@ -76,6 +84,7 @@ def coq_side(res, d, gh, sp, mod, obs_text, scen, shards=12):
             i = it["index"]
             lines.append("Definition rep_%d := Eval vm_compute in check_case cs_%d." % (i, i))
             lines.append("Theorem cert_%d : cr_cert (check_case cs_%d) = cr_cert rep_%d. Proof. vm_cast_no_check (eq_refl (cr_cert rep_%d)). Qed." % (i, i, i, i))
+            lines.append("Definition real_%d := case_sound cs_%d." % (i, i))
         lines.append("Definition all_reports := [%s]." % "; ".join("report_row %d%%nat rep_%d" % (it["index"], it["index"]) for it in info))
         lines.append("Set Printing Width 1000000. Set Printing Depth 1000000.")
         lines.append("Eval vm_compute in all_reports.")
@@ -108,7 +117,9 @@ def coq_side(res, d, gh, sp, mod, obs_text, scen, shards=12):
 def check(res):
     res.assumptions = TRUSTED
     res.coverage["trusted_base"] = TRUSTED
-    res.level = "exploration"
+    res.level = "proof"
+    if not check_properties_file(res, "theories/Properties/C10.v"):
+        return
     rng = random.Random(res.seed)
     exprs = celgen.build(rng, res.tier)
     scen = [celgen.scenario_for(sid, vt, e, rng, 40 if res.tier == "quick" else 80) for sid, vt, e in exprs]
